@@ -1,7 +1,7 @@
 """C04 — emitted RTLIL equivalent to the simulated design (structural necessary conditions)."""
 import ast
 from ..engine.core import AnalysisError, need
-from ..engine.astutil import (dispatch_leaves, select_leaf, const_str, const_int, dotted, unparse, pmatch, str_elts,
+from ..engine.astutil import (template_of, dispatch_leaves, select_leaf, const_str, const_int, dotted, unparse, pmatch, str_elts,
                               walk_no_nested, find_matches, dump, last_name, is_rejection)
 from ..engine.symx import run_paths, subst
 from . import interp, c02
@@ -24,7 +24,7 @@ ASSUMPTIONS = [
     "CPython ast parses /repo's source as the interpreter would",
     "the frozen reference of Yosys RTLIL cell semantics in sa/rules/c04.py (REF_UNARY/REF_BINARY; $mux: Y = S ? B : A)",
 ]
-MIN_INSTANCES = {"R-04g": 2, "R-04a": 60, "R-04b": 25, "R-04c": 10, "R-04d": 8, "R-04e": 40, "R-04f": 2}
+MIN_INSTANCES = {"R-04h": 3, "R-04g": 2, "R-04a": 60, "R-04b": 25, "R-04c": 10, "R-04d": 8, "R-04e": 40, "R-04f": 2}
 
 # reference: netlist operator -> (cell type, required A_SIGNED, required B_SIGNED); None = free (overwritten by the
 # common `signed` choice, or irrelevant because all widths are equal)
@@ -771,6 +771,39 @@ def _only_ir(rule_fn, keep):
 
 _is_ir = lambda c: any(c.startswith(p) for p in ("emit_", "NetlistEmitter", "NetlistDriver", "unify_shapes"))
 
-RULES = [("R-04g", r04g), ("R-04a", r04a), ("R-04b", r04b), ("R-04c", r04c), ("R-04d", r04d), ("R-04e", r04e), ("R-04f", r04f),
+def r04h(model, ctx):
+    """RTLIL statement order inside processes and cases: in RTLIL the assignments of a case take effect before its switches,
+    so an assignment that follows a switch in program order (a later override) must be wrapped in its own `switch {} / case`.
+    Every container of statements (a class of back/rtlil.py holding `self.contents` with both assign() and switch()) must
+    emit them through the one routine that does this."""
+    R = "R-04h"
+    mod = model.mod(RTLIL)
+    fh = model.func(f"{RTLIL}::_emit_process_contents")
+    tx = [t for t in (template_of(c.args[0]) for c in ast.walk(fh) if isinstance(c, ast.Call) and c.args) if t is not None]
+    texts = {t.text().strip() for t in tx if not t.holes}
+    loops = [w for w in fh.body if isinstance(w, ast.While)]
+    ok = {"switch {}", "case", "end"} <= texts and len(loops) == 2 and \
+        "isinstance(contents[index], Assignment)" in unparse(loops[0].test) and \
+        any(isinstance(x, ast.If) and "isinstance(contents[index], Assignment)" in unparse(x.test) for x in loops[1].body)
+    ctx.check(ok, R, "_emit_process_contents", "leading assignments are emitted directly, later runs of assignments inside `switch {} / case`",
+              "_emit_process_contents must emit the leading assignments as they are and wrap every later run of assignments in "
+              "`switch {}` / `case` / `end`, otherwise an assignment written after a switch takes effect before it", f"{RTLIL}:{fh.lineno}")
+    n = 0
+    for c in model.classes(RTLIL):
+        ms = model.class_methods(c)
+        if not ({"assign", "switch", "emit"} <= set(ms)):
+            continue
+        n += 1
+        calls = [x for x in ast.walk(ms["emit"]) if isinstance(x, ast.Call) and dotted(x.func) == "_emit_process_contents"]
+        okc = len(calls) == 1 and calls[0].args and unparse(calls[0].args[0]) == "self.contents" and \
+            not any(isinstance(x, ast.For) and "self.contents" in unparse(x.iter) for x in ast.walk(ms["emit"]))
+        ctx.check(okc, R, f"rtlil.{c.name}.emit", "contents emitted through _emit_process_contents(self.contents, ..)",
+                  f"rtlil.{c.name}.emit must emit its statements through _emit_process_contents (a plain loop emits an assignment that "
+                  f"follows a nested switch without the `switch {{}}` wrapper, so the earlier conditional wins over the later override)",
+                  f"{RTLIL}:{ms['emit'].lineno}")
+    need(n >= 2, f"only {n} statement containers (classes with assign/switch/emit) found in back/rtlil.py")
+
+
+RULES = [("R-04h", r04h), ("R-04g", r04g), ("R-04a", r04a), ("R-04b", r04b), ("R-04c", r04c), ("R-04d", r04d), ("R-04e", r04e), ("R-04f", r04f),
          ("R-02c", _only_ir(c02.r02c, _is_ir)), ("R-02d", _only_ir(c02.r02d, _is_ir)),
          ("R-02e", _only_ir(c02.r02e, _is_ir)), ("R-02a", _only_ir(c02.r02a, _is_ir))]
